@@ -97,7 +97,7 @@ class SimStreamingBody:
         rec = self._rec
         s3._stream_enter(rec)
         try:
-            sim.point('s3.stream.read')
+            sim.spoint('s3.stream.read')
             self.reads += 1
             remaining = len(self._data) - self._pos
             if amt is None or amt < 0:
@@ -259,7 +259,7 @@ class SimS3:
         if match:
             m.update(match)
         try:
-            sim.point('s3.%s.b' % op)
+            sim.spoint('s3.%s.b' % op)
             lat = self.world.latency(op, m)
             if lat:
                 sim.sleep(lat)
@@ -287,7 +287,7 @@ class SimS3:
                 rec['applied'] = True
                 self._end(rec, 'fault-after')
                 raise exc
-            sim.point('s3.%s.e' % op)
+            sim.spoint('s3.%s.e' % op)
             self._end(rec, 'ok', keep_stream=(op == 'get_object'))
             return result
         except BaseException:
@@ -306,7 +306,7 @@ class SimS3:
             return
         # payload hashing: read everything, seek back
         while True:
-            self.sim.point('s3.sign.read')
+            self.sim.spoint('s3.sign.read')
             b = body.read(self.knobs.get('sign_chunk', 1 << 20))
             if not b:
                 break
@@ -326,7 +326,7 @@ class SimS3:
                 # seek back
                 start = body.tell()
                 while True:
-                    sim.point('s3.pre.read')
+                    sim.spoint('s3.pre.read')
                     if not body.read(knobs.get('sign_chunk', 1 << 20)):
                         break
                 body.seek(start)
@@ -360,7 +360,7 @@ class SimS3:
                         if n <= 0:
                             did_cut = True
                             break
-                    sim.point('s3.body.read')
+                    sim.spoint('s3.body.read')
                     b = wrapped.read(n)
                     reads.append((attempt, len(b)))
                     if b:
